@@ -1,3 +1,4 @@
+import re
 """C11 — address encodings are lossless and classified by their header (E7 header table by constant evaluation, strictness shape, nat codec shape)."""
 import itertools
 
@@ -492,6 +493,36 @@ def check(rep, F, tier, replay=None):
     rep.floor("integer casts inspected in address code", 30, tot_)
     from ruleutil import ser_filter_rule
     ser_filter_rule(rep, F)
+    # FIXED-exact: a fixed-size field of a decoded Byron address is converted from exactly that many bytes
+    rep.rule("FIXED-exact", "in the Byron payload decoder (ExtendedAddr::deserialize) the 28-byte root is produced from the bytes of the wire by an exact-length conversion (slice -> [u8; 28] try_into / try_from, which fails unless the lengths are equal), or by a copy that is dominated by comparisons pinning the length to exactly 28: a longer root that is cut to 28 bytes makes the strict parsers accept bytes that re-encode differently, and an embedded such address is classified Byron instead of being kept verbatim as malformed")
+    import fieldflow as _ff
+    from ruleutil import gate_min as _gmin, gate_limit as _glim
+    ids_ = [f for f in F.fns if f.endswith("Deserialize for legacy_address::address::ExtendedAddr>::deserialize") or F.key(f) == "<ExtendedAddr as cbor_event::Deserialize>::deserialize"]
+    if len(ids_) != 1:
+        rep.lost("ExtendedAddr::deserialize not found (%d)" % len(ids_))
+    else:
+        fid_ = ids_[0]
+        fn_ = F.fns[fid_]
+        org_ = _ff.Origins(F, fid_)
+        aggs_ = [(bi, st) for bi, bb in enumerate(fn_["bbs"]) if not bb["c"] for st in bb["st"] if st[1] == "=" and st[3][0] == "agg" and str(st[3][2]).endswith("legacy_address::address::ExtendedAddr")]
+        if len(aggs_) != 1:
+            rep.lost("ExtendedAddr::deserialize: struct construction not found")
+        else:
+            bi_, st_ = aggs_[0]
+            rep.inst("FIXED-exact")
+            o_ = org_.of_operand(st_[3][4][0])
+            from_wire = any(x.startswith("call:") and x.split("@")[0].endswith("Deserializer::<R>::bytes") for x in o_)
+            exact = any(x.startswith("call:") and re.search(r"(TryInto<U>>::try_into|TryFrom<&.*\[T\]> for \[T; N\]>::try_from|TryFrom<.*>>::try_from)$", x.split("@")[0]) for x in o_)
+            copies = [c for c in F.calls(fid_) if (c.to or "").endswith("copy_from_slice") or (c.to or "").endswith("clone_from_slice")]
+            if copies:
+                for c in copies:
+                    lo, hi = _gmin(F, fid_, c.bb)[0], _glim(F, fid_, c.bb)[0]
+                    if lo != 28 or hi != 28:
+                        rep.violation("FIXED-exact", "ExtendedAddr::deserialize|root|%s..%s" % (lo, hi), "ExtendedAddr::deserialize copies the root out of the wire bytes where their length is only known to be in %s ..= %s: a root of another length (29, 32, 56 bytes) with a correct CRC is accepted and cut to 28 bytes - ByronAddress::from_bytes / from_base58 / Address::from_bytes answer Ok and re-encode to different bytes, and inside a TransactionOutput the bytes are classified Byron instead of being kept verbatim" % (lo if lo is not None else "0", hi if hi is not None else "unbounded"), {"line": c.line})
+            elif not from_wire:
+                rep.lost("ExtendedAddr::deserialize: the root no longer comes from raw.bytes()")
+            elif not exact:
+                rep.lost("ExtendedAddr::deserialize: neither an exact-length conversion nor a gated copy produces the root (origins %s)" % sorted(x.split("@")[0][-40:] for x in o_ if x.startswith("call:"))[:5])
     return rep.finish(
         EXPLANATION,
         ["bech32 / base58 / CRC codecs are dependencies or value-level (not decided)", "the strict parsers never panic: C02"],
